@@ -77,7 +77,7 @@ ZeroText(t) == CASE t = "string" -> E [] t = "cc" -> E [] t = "um" -> E [] t = "
 ZeroVal(od) == IF od.kind = "scalar" THEN <<ZeroText(od.vtype)>> ELSE IF od.kind = "flag" THEN <<S_false>> ELSE <<>>
 
 \* the built-in help option that ParseArgs adds to every command when HelpFlag is set (parser.go:215-218)
-HelpOpt(d, c) == [cmd |-> c, group |-> 0, short |-> 104, long |-> <<104, 101, 108, 112>>, kind |-> "help", vtype |-> "",
+HelpOpt(d, c) == [cmd |-> c, group |-> 0, short |-> 104, long |-> <<104, 101, 108, 112>>, kind |-> "help", vtype |-> "", ktype |-> "string",
                   base |-> 10, optional |-> FALSE, optvals |-> <<>>, required |-> FALSE, defaults |-> <<>>,
                   env |-> E, envDelim |-> E, choices |-> <<>>, hidden |-> FALSE, unquote |-> TRUE,
                   init |-> <<>>, failOn |-> <<>>, validator |-> FALSE,
@@ -159,8 +159,10 @@ ApplySet(s, o, hasVal, txt, src) ==
       s1 == [s0 EXCEPT !.isSet[o] = TRUE, !.prevDef[o] = TRUE, !.clearRef[o] = FALSE, !.perr = NoErr]
       t  == IF hasVal THEN txt ELSE E
       fail(e) == [s1 EXCEPT !.perr = e]
+      \* a map entry key:value - the key is converted first, by the key type and with the option's base, then the value (convert.go:287-315)
+      kconv == IF od.kind = "map" THEN ConvScalar(od.ktype, od.base, MapKey(t), s.ftab) ELSE Okv(E)
       conv == IF od.kind \in {"flag", "counter", "ptrflag"} THEN ParseBoolT(t)
-              ELSE IF od.kind = "map" THEN ConvScalar(od.vtype, od.base, MapVal(t), s.ftab)
+              ELSE IF od.kind = "map" THEN (IF kconv.ok THEN ConvScalar(od.vtype, od.base, MapVal(t), s.ftab) ELSE kconv)
               ELSE ConvScalar(od.vtype, od.base, t, s.ftab)
   IN
   IF od.choices # <<>> /\ ~hasVal /\ Defect("ChoiceOnFlagPanics") THEN fail(Err("panic", E))
@@ -179,7 +181,7 @@ ApplySet(s, o, hasVal, txt, src) ==
        LET s2 == [s1 EXCEPT !.events = Append(@, [k |-> "call", o |-> o, has |-> TRUE, arg |-> conv.v])] IN
        IF CallFails(od, conv.v) THEN [s2 EXCEPT !.perr = Err("foreign", E)] ELSE s2
   ELSE IF od.kind \in {"slice", "counter", "sliceptr"} THEN [s1 EXCEPT !.val[o] = Append(@, conv.v)]
-  ELSE IF od.kind = "map" THEN [s1 EXCEPT !.val[o] = MapPut(@, MapKey(t), conv.v)]
+  ELSE IF od.kind = "map" THEN [s1 EXCEPT !.val[o] = MapPut(@, kconv.v, conv.v)]
   ELSE [s1 EXCEPT !.val[o] = <<conv.v>>]
 
 \* foreign errors from Set are wrapped as ErrMarshal naming the flag (parser.go:565-586)
